@@ -40,6 +40,14 @@ def run(ctx):
             ctx.check("socket-provisioning", "reuse-flags-before-bind", flags.get("reuse_port") == ("int", 1) and flags.get("reuse_address") == ("int", 1),
                       "bind on a builder with reuse_address(true) and reuse_port(true)", "worker sockets are bound with flags %s" % {k: fmt(v) for k, v in flags.items()}, bs.loc(bb))
             addr = bev.call_args(bb)[1]
+            if not values.contains(addr, lambda s: is_call(s) and s[1].endswith("udp_socket_addr")):
+                # the address resolved by the caller and passed in: every call site must pass config.udp_socket_addr()
+                cands = []
+                for (cp, cbb) in P.callers(bs.path):
+                    cargs = [W.expand(x) for x in W.ev(cp).call_args(cbb)]
+                    cands.append(W.expand(W.bind_params(addr, bs.path, cargs)))
+                if cands and all(values.contains(c, lambda s: is_call(s) and s[1].endswith("udp_socket_addr")) for c in cands):
+                    addr = cands[0]
             ctx.check("socket-provisioning", "bound-to-configured-address", values.contains(addr, lambda s: is_call(s) and s[1].endswith("udp_socket_addr")),
                       "bound to config.udp_socket_addr()", "bound to %s" % fmt(addr), bs.loc(bb))
     ctx.floor("socket-provisioning", nb, 1, "bind calls in bind_socket")
